@@ -14,9 +14,26 @@ def codes(s):
     return [ord(c) for c in (s or "")]
 
 
+class _StepScorer(qa.Scorer):
+    """The shipped model quantised to whole numbers: scores of exactly 0.0, exact ties and negative values in one stream
+    (what a capped / rounded / coverage-based custom scorer produces)."""
+
+    def __init__(self, div):
+        self.inner = qa.fresh_scorer("shipped")
+        self.div = div
+
+    def score(self, txt, ts, pp):
+        return float(round(self.inner.score(txt, ts, pp) / self.div)) + 0.0
+
+    def score_final(self, txt, ts, pp, prod):
+        return float(round(self.inner.score_final(txt, ts, pp, prod) / self.div)) + 0.0
+
+
 def _scorer(kind, seed):
     if kind == "random":
         return qa.RandomScorer(Random(seed))
+    if kind == "step":
+        return _StepScorer([1.0, 5.0, 50.0, 500.0][seed % 4])
     return qa.fresh_scorer(kind, seed)
 
 
@@ -85,7 +102,7 @@ def run(ctx):
                 if depth == 0 and (nm > 8 or ns > 20):
                     continue
                 for rel in (1.0, 0.5, 0.1):
-                    for scorer in ("shipped", "dummy", "random"):
+                    for scorer in ("shipped", "dummy", "random", "step"):
                         if ctx.quick and (latent + depth + int(rel * 10) + len(scorer) + len(t)) % 4 and not (t in extra and rel == 1.0 and depth == 10):
                             continue
                         cases.append({"text": t, "ts": ts, "latent": latent, "depth": depth, "rel": rel, "scorer": scorer,
